@@ -22,7 +22,7 @@ def plan(tier):
     if tier == 'quick':
         return [{'n': 90} for _ in range(8)]
     units = [{'n': 40, 'biort': b, 'qshift': q, 'J': J} for b, q in dtu.PAIRS for J in (1, 2, 3, 4)]
-    units += [{'n': 500} for _ in range(16)]
+    units += [{'n': 1000} for _ in range(16)]
     return units
 
 
